@@ -10,9 +10,3 @@ func pending(c *Ctx, name string) {
 	c.R.Notes = append(c.R.Notes, "rule "+name+" is not implemented yet")
 }
 
-func runSelftest(verif string) int { return 0 }
-
-func runMutants(repo, verif string, pd *propDef, verbose bool) int { return 0 }
-
-func mutantSweep(repo string, pd *propDef) *MutantResult { return nil }
-
